@@ -211,6 +211,9 @@ pub enum Step {
     W(usize),
     /// apply mutation `i`
     M(usize),
+    /// drop walker `i` without exhausting it (the consumer lost interest: cancellation at an
+    /// arbitrary instant)
+    D(usize),
 }
 
 /// A fault placed *inside* an operation: when a `filter_entry` closure of walker `w` is shown the
